@@ -242,6 +242,17 @@ def braced(w, s, depth):
 
 
 def stmt(w, s, depth, inline=False):
+    """write statement s.  A node marked after a nested statement has been written (the rest of a statement that
+    contains a function literal, the condition of a do-while, the update of a for) belongs to the enclosing statement:
+    its start is restored when the nested one is complete."""
+    outer = (w.sline, w.scol)
+    try:
+        _stmt(w, s, depth, inline)
+    finally:
+        w.sline, w.scol = outer
+
+
+def _stmt(w, s, depth, inline):
     k = s["s"]
     if not inline:
         w.start(depth)
